@@ -324,6 +324,37 @@ def grad_of(module, fn, consts=()):
     return flat_params(jax.grad(f, argnums=(0, 2))(params, rest, cstates)[0])
 
 
+def grad_sensitivity(module, fn, consts, gref, reps=4):
+    """Per-leaf allowance for ill-conditioned float32 gradients (LayerNorm / avg-L1 normalisation on
+    nearly constant inputs): re-evaluate the reference gradient with every parameter of ``module``
+    perturbed by a relative 2^-21 (a few float32 ulps) and allow 4x the observed movement.
+    Well-conditioned cases get ~1e-6 of the gradient scale, i.e. nothing."""
+    import jax
+    from flax import nnx
+
+    extra = {k: np.zeros_like(v, dtype=np.float64) for k, v in gref.items()}
+    for rep in range(reps):
+        r = np.random.default_rng(1000 + rep)
+        m2 = nnx.clone(module)
+        st = nnx.state(m2, nnx.Param)
+        lv, td = jax.tree_util.tree_flatten(st)
+        new = [l * (1.0 + np.float32(2.0 ** -21) * r.choice([-1.0, 1.0], size=l.shape).astype(np.float32)) for l in lv]
+        nnx.update(m2, jax.tree_util.tree_unflatten(td, new))
+        c2 = []
+        for c in consts:  # the modules the gradient flows through (critic, encoder) matter as much
+            c2m = nnx.clone(c)
+            stc = nnx.state(c2m, nnx.Param)
+            lvc, tdc = jax.tree_util.tree_flatten(stc)
+            newc = [l * (1.0 + np.float32(2.0 ** -21) * r.choice([-1.0, 1.0], size=l.shape).astype(np.float32))
+                    for l in lvc]
+            nnx.update(c2m, jax.tree_util.tree_unflatten(tdc, newc))
+            c2.append(c2m)
+        g2 = grad_of(m2, fn, tuple(c2))
+        for k in extra:
+            extra[k] = np.maximum(extra[k], 4.0 * np.abs(g2[k] - gref[k]))
+    return extra
+
+
 def logp_conditioning(head, policy, info, obs, actions):
     """Float32 conditioning of log pi(a|o): (per-sample bound on the float32
     evaluation error of the log-density, kappa = max (|mean|+|a|+|scale|)/std).
@@ -358,7 +389,7 @@ def contract(jac, coeff):
     return g, gross
 
 
-def compare_grads(g, gref, gross=None, rel=1e-3, abs_gross=2e-5, abs_floor=1e-7, kappa=0.0, extra=None):
+def compare_grads(g, gref, gross=None, rel=1e-3, abs_gross=1e-4, abs_floor=1e-6, kappa=0.0, extra=None):
     """Largest violation of |g-gref| <= abs_gross*gross + rel*|gref| + abs_floor*(1+G)
     over all leaves; returns (ok, description).  G = global max |gref|.
     ``kappa`` (see logp_conditioning) widens the gross-relative allowance by
